@@ -34,7 +34,10 @@ Place(f, t, host) ==
     ELSE ToFile(r, f.out)
 
 L(lab, t) == [label |-> lab, tree |-> t]
-HostsFor(f) == IF f.out \in {"E", "S", "B", "Simple", "Args"} THEN HostsUsed ELSE {"function"}
+\* thorough: every frame in a function and a constructor, the representative frames in every kind of host
+HostsFor(f) == IF f.out \in {"E", "S", "B", "Simple", "Args"}
+               THEN (IF Full /\ f \notin QuickE \cup QuickS THEN {"function", "constructor"} ELSE HostsUsed)
+               ELSE {"function"}
 
 ExprFamily(insts) ==
     UNION {UNION {{L(i.label \o "@" \o f.k \o "." \o ToString(f.hs) \o "." \o ToString(f.hp) \o "/" \o h, Place(f, i.tree, h))
